@@ -3,6 +3,7 @@ from __future__ import annotations
 
 import ast
 import random
+import re
 
 from .. import base, corpus, gen_ctx
 from ..acc import Acc
@@ -73,6 +74,9 @@ def classify_span(construct, observed_text):
     return None
 
 
+_GLUES_TO_AT = re.compile(r"\$\(|\w*`|\(")
+
+
 def check_pair(acc, ctx_x, spans_x, ctx_t, spans_t, origin):
     """ctx_x: program with xonsh text, spans_x: [(offset, text)]; ctx_t/spans_t likewise for the translation"""
     kind, cp = base.cpython(ctx_t, "exec")
@@ -92,6 +96,12 @@ def check_pair(acc, ctx_x, spans_x, ctx_t, spans_t, origin):
     if acc.evals % 1499 == 1:
         acc.sample({"xonsh": ctx_x[:100], "python": ctx_t[:120]})
     if not out.accepted:
+        if origin == "target-base-context" and out.kind == "syntax" and spans_x and all(t.rstrip().endswith("?") for _, t in spans_x):
+            acc.finding("F05d", ctx_x[:80])  # a help construct as the base of a binding-target chain
+            return
+        if origin == "matmul-glue-context" and out.kind == "syntax" and spans_x and all(_GLUES_TO_AT.match(t) for _, t in spans_x):
+            acc.finding("F05f", ctx_x[:80])  # '@$(' and '@`' are single tokens
+            return
         acc.violation("construct-rejected-in-expression-context", case, {"outcome": out.brief()})
         return
     diffs = diff_trees(cp, out.value, positions=False)
@@ -244,6 +254,16 @@ def run_shard(shard):
         for x, t in gen_ctx.TARGET_CONSTRUCTS:
             for ctx in gen_ctx.TARGET_CONTEXTS:
                 check_target(acc, ctx, x, t, "binding-target")
+        for x, t in cons:
+            for ctx in gen_ctx.MATMUL_GLUE_CONTEXTS:
+                px, sx = gen_ctx.fill(ctx, [x])
+                pt, st = gen_ctx.fill(ctx, [t])
+                check_pair(acc, px, sx, pt, st, "matmul-glue-context")
+        for x, t in cons + gen_ctx.TARGET_CONSTRUCTS:
+            for ctx in gen_ctx.TARGET_BASE_CONTEXTS:
+                px, sx = gen_ctx.fill(ctx, [x])
+                pt, st = gen_ctx.fill(ctx, [t])
+                check_pair(acc, px, sx, pt, st, "target-base-context")
     elif kind == "multi":
         for _ in range(shard["n"]):
             ctx = rnd.choice(gen_ctx.LOAD_CONTEXTS)
